@@ -221,6 +221,41 @@ macro_rules! c13_drive {
 }
 pub(crate) use c13_drive;
 
+/// the two halves of `c13_drive` as separate queries, for expressions whose single query exceeds the memory cap
+macro_rules! c13_drive_meta {
+    ($mw:expr, $lr:expr, $den:expr) => {{
+        let mw = $mw;
+        let lr: u8 = $lr;
+        let meta = ev_meta(lr);
+        let (b, n) = any_buf();
+        {
+            let mut w = mw.make_writer_for(meta);
+            assert!(io::Write::write_all(&mut w, &b[..n]).is_ok());
+            assert!(io::Write::flush(&mut w).is_ok());
+        }
+        let want: Den = $den;
+        check_sinks(want, true, meta, lr, &b[..n]);
+        want
+    }};
+}
+macro_rules! c13_drive_plain {
+    ($mw:expr, $lr:expr, $den0:expr) => {{
+        let mw = $mw;
+        let lr: u8 = $lr;
+        let meta = ev_meta(lr);
+        let (b, n) = any_buf();
+        {
+            let mut w = mw.make_writer();
+            assert!(io::Write::write_all(&mut w, &b[..n]).is_ok());
+            assert!(io::Write::flush(&mut w).is_ok());
+        }
+        let want0: Den = $den0;
+        check_sinks(want0, false, meta, lr, &b[..n]);
+        want0
+    }};
+}
+pub(crate) use {c13_drive_meta, c13_drive_plain};
+
 /// vacuity twin for the algebra group
 #[kani::proof]
 #[kani::unwind(2)]
